@@ -292,10 +292,15 @@ def _run_check(prop, tier, seed, t0, harness, cfg, budget, level, targets, scrat
         fz_stats, fz_cands = run_libfuzzer(prop, harness, cfg, budget, targets["fz"].out, scratch, known_path, seed)
         stats_all.extend(fz_stats)
         candidates.extend(fz_cands)
-    for extra in cfg.get("extras", {}).get(tier, []):
-        st_x, cand_x = extra(prop, harness, cfg, budget, targets, scratch, known_path, seed)
+    extra_cov = {}
+    for name in cfg.get("extras", {}).get(prop, []):
+        import venum
+        fn = getattr(venum, name)
+        envb = base_env(prop, scratch, scratch, known_path)
+        st_x, cand_x, cov_x = fn(prop, harness, cfg, budget, targets, scratch, known_path, seed, envb, NWORKERS, tier == "thorough")
         stats_all.extend(st_x)
         candidates.extend(cand_x)
+        extra_cov.update(cov_x)
 
     # ---- 4. triage ---------------------------------------------------------------------------
     violations = []
@@ -336,6 +341,7 @@ def _run_check(prop, tier, seed, t0, harness, cfg, budget, level, targets, scrat
     # ---- 5. evidence ---------------------------------------------------------------------------
     ev = make_evidence(prop, tier, seed, level, cfg, harness, stats_all, engines_count, known_here, violations, notes, t0,
                        replay_excluded)
+    ev["coverage"].update(extra_cov)
     os.makedirs(os.path.join(VERIF, "evidence"), exist_ok=True)
     with open(os.path.join(VERIF, "evidence", prop + ".json"), "w") as f:
         json.dump(ev, f, indent=1)
